@@ -323,6 +323,7 @@ type trEnv struct {
 	cname     string            // name of the byte parameter
 	sname     string            // name of the scanner parameter / receiver
 	strs      map[string]string // string parameters bound by inlining
+	evs       map[string]string // LexemeEventType parameters bound by inlining: name -> event constant
 	states    map[string]string // stepFunc parameters bound by inlining and local stepFunc variables: name -> "st_x" ("" = not assigned yet)
 	void      bool              // inside a helper without result: a bare return is the end of the helper
 	noHelpers bool
@@ -547,9 +548,9 @@ func (t *scannerTr) stmt(s ast.Stmt, env *trEnv) []st {
 				return []st{leaf("SPushCur")}
 			}
 		case fn == sn+".found" && len(call.Args) == 1:
-			return []st{leaf(fmt.Sprintf("SFound %s 0%%Z", t.event(call.Args[0])))}
+			return []st{leaf(fmt.Sprintf("SFound %s 0%%Z", t.event(call.Args[0], env)))}
 		case fn == sn+".foundAt" && len(call.Args) == 2:
-			return []st{leaf(fmt.Sprintf("SFound %s %s", t.event(call.Args[1]), t.curOffset(call.Args[0], env)))}
+			return []st{leaf(fmt.Sprintf("SFound %s %s", t.event(call.Args[1], env), t.curOffset(call.Args[0], env)))}
 		}
 		// a helper without result: s.m(args) or f(s, args)
 		if sel, ok := call.Fun.(*ast.SelectorExpr); ok && src(sel.X) == sn {
@@ -589,8 +590,13 @@ func (t *scannerTr) stmt(s ast.Stmt, env *trEnv) []st {
 	return nil
 }
 
-func (t *scannerTr) event(e ast.Expr) string {
+func (t *scannerTr) event(e ast.Expr, env *trEnv) string {
 	id, ok := e.(*ast.Ident)
+	if ok && env != nil && env.evs != nil {
+		if v, bound := env.evs[id.Name]; bound {
+			return v
+		}
+	}
 	if !ok || !t.events[id.Name] {
 		failf(e, "unknown lexeme event %s", src(e))
 	}
@@ -960,6 +966,11 @@ func (t *scannerTr) inlineWith(fd *ast.FuncDecl, call *ast.CallExpr, env *trEnv,
 				ne.states = map[string]string{}
 			}
 			ne.states[name] = r
+		case "LexemeEventType":
+			if ne.evs == nil {
+				ne.evs = map[string]string{}
+			}
+			ne.evs[name] = t.event(call.Args[i], env)
 		default:
 			failf(call, "unsupported parameter type %s", src(p.Type))
 		}
